@@ -125,8 +125,9 @@ def symint(s=0, *a):
     return builtins.int(s, *a)
 
 
-def _isotope_match(string):
-    """re.match(r'(?:\\d+)?([a-zA-Z]+)', name) with the capture group reconstructed: digits* letters+ rest, maximal letters."""
+def _isotope_match(string, capture_digits=False):
+    """re.match of the isotope pattern, r'(?:\\d+)?([a-zA-Z]+)' or with the digits captured, with the capture groups
+    reconstructed: name = digits* letters+ rest, letters maximal (rest does not start with a letter)."""
     import z3
     from symex import core as C
     from symex.symstr import SymStr
@@ -138,15 +139,28 @@ def _isotope_match(string):
     if not bool(ok):
         return None
     elem = SymStr(f'element({string.sname})')
-    d = z3.String(f'digits!{elem.idx}')
+    dg = SymStr(f'massnumber({string.sname})')
     rest = z3.String(f'rest!{elem.idx}')
     nonletter_start = z3.Or(z3.Length(rest) == 0, z3.Not(z3.InRe(z3.SubString(rest, 0, 1), letter)))
-    C.CTX.pc.append(C.B('z3', z3.And(string.z == z3.Concat(d, elem.z, rest), z3.InRe(d, digits), z3.InRe(elem.z, letters), nonletter_start)))
+    C.CTX.pc.append(C.B('z3', z3.And(string.z == z3.Concat(dg.z, elem.z, rest), z3.InRe(dg.z, digits), z3.InRe(elem.z, letters), nonletter_start)))
 
     class M:
+        def _groups(self):
+            if not capture_digits:
+                return (elem,)
+            # an optional group that did not take part in the match is None
+            return (dg if bool(C.B('z3', z3.Length(dg.z) > 0)) else None, elem)
+
         def __getitem__(self, i):
-            assert i == 1
-            return elem
+            return self.group(i)
+
+        def group(self, i=0):
+            if i == 0:
+                raise C.Unsupported('whole-match group of the isotope pattern')
+            return self._groups()[i - 1]
+
+        def groups(self):
+            return self._groups()
 
     return M()
 
@@ -154,7 +168,8 @@ def _isotope_match(string):
 def SymRe():
     from symex.symre import SymReModule
 
-    return SymReModule(special={('match', r'(?:\d+)?([a-zA-Z]+)'): _isotope_match})
+    return SymReModule(special={('match', r'(?:\d+)?([a-zA-Z]+)'): _isotope_match,
+                                ('match', r'(\d+)?([a-zA-Z]+)'): lambda s_: _isotope_match(s_, capture_digits=True)})
 
 
 def _load():
@@ -550,7 +565,7 @@ def replay_real(case):
                 try:
                     r = fn(near)
                     bad.append(f'near-miss name {near!r} answered with {getattr(r, "isotope", r)}')
-                except (ValueError, TypeError):
+                except (ValueError, TypeError, AttributeError, KeyError, IndexError):
                     pass
         if not bad:
             return {'reproduced': False, 'detail': f'rows={rows} ok'}
